@@ -359,6 +359,11 @@ def zero_alive():
     return Game("zero_alive", [PR, PR, PR, PR], [[(0.5, 1), (0.5, 2)], [(0.0, 2), (1.0, 3)], [(1, 2)], [(1, 3)]], [2], [SYM, 1, 0, 0])
 
 
+def final_to_dead():
+    """a final state (numbered below its predecessor) that is not absorbing and whose only successor is dead"""
+    return Game("final_to_dead", [P1, PR, PR, PR], [[("in", 2), ("out", 3)], [(1, 3)], [(1.0, 1)], [(1, 3)]], [1], [SYM, 0, SYM, 0])
+
+
 def slow_chain():
     """KF-1: self-loop of probability 1-1e-7; value iteration stops far from the value"""
     return Game("slow_chain", [PR, PR], [[(1 - 1e-7, 0), (1e-7, 1)], [(1, 1)]], [1], [0, 0])
